@@ -11,6 +11,8 @@ package basepeerleecher
 //@ ghost nreq int
 //@ ghost lastChunks int
 //@ ghost nprocessed int
+//@ // greq is the total number of chunks asked for by all RequestChunks calls (the sum of their maxChunks arguments)
+//@ ghost greq int
 //@ const Big = 1152921504606846976
 //@
 //@ funcfield EpochDownloaderCallbacks.Suspend
@@ -18,21 +20,26 @@ package basepeerleecher
 //@ funcfield EpochDownloaderCallbacks.Done
 //@   ensures result == isdone
 //@ funcfield EpochDownloaderCallbacks.RequestChunks
-//@   modifies nreq, lastChunks
+//@   modifies nreq, lastChunks, greq
 //@   ghost nreq = old(nreq) + 1
 //@   ghost lastChunks = maxChunks
+//@   ghost greq = old(greq) + maxChunks
 //@ funcfield EpochDownloaderCallbacks.IsProcessed
 //@   ensures true
+//@
+//@ // every notification handed to the loop goroutine is a non-nil record
+//@ chaninv BasePeerLeecher.notifyReceivedChunk(v): v != nil
 //@
 //@ inv BasePeerLeecher flow(d):
 //@   d != nil && d.callback.Suspend != nil && d.callback.Done != nil && d.callback.RequestChunks != nil && d.callback.IsProcessed != nil &&
 //@   0 <= d.totalProcessed && d.totalProcessed <= Big && 0 <= d.totalRequested &&
 //@   0 <= d.cfg.ParallelChunksDownload && d.cfg.ParallelChunksDownload <= 4294967295 &&
-//@   d.totalRequested <= d.totalProcessed + d.cfg.ParallelChunksDownload
+//@   d.totalRequested <= d.totalProcessed + d.cfg.ParallelChunksDownload &&
+//@   greq == d.totalRequested
 //@
 //@ func (*BasePeerLeecher).tryToSync
 //@   requires flow(d) && d.totalProcessed + d.cfg.ParallelChunksDownload - d.totalRequested <= 4294967295
-//@   modifies d.totalRequested, nreq, lastChunks
+//@   modifies d.totalRequested, nreq, lastChunks, greq
 //@   ensures  [window] flow(d)
 //@   ensures  [suspended] suspended ==> nreq == old(nreq) && d.totalRequested == old(d.totalRequested)
 //@   ensures  [request] !suspended && old(d.totalRequested) < d.totalProcessed + d.cfg.ParallelChunksDownload ==> nreq == old(nreq) + 1 && lastChunks == d.totalProcessed + d.cfg.ParallelChunksDownload - old(d.totalRequested) && d.totalRequested == d.totalProcessed + d.cfg.ParallelChunksDownload
@@ -56,7 +63,31 @@ package basepeerleecher
 //@ func (*BasePeerLeecher).routine
 //@   requires flow(d) && d.totalProcessed + len(d.processingChunks) <= Big
 //@   requires d.totalProcessed + len(d.processingChunks) + d.cfg.ParallelChunksDownload - d.totalRequested <= 4294967295
-//@   modifies d.done, d.processingChunks, d.totalProcessed, d.totalRequested, nreq, lastChunks
+//@   modifies d.done, d.processingChunks, d.totalProcessed, d.totalRequested, nreq, lastChunks, greq
+//@   ensures  [buffer] len(d.processingChunks) <= old(len(d.processingChunks))
 //@   ensures  [done] isdone ==> d.done && nreq == old(nreq)
 //@   ensures  [window] flow(d)
 //@   ensures  [suspended] suspended ==> nreq == old(nreq)
+//@
+//@ // New: a leecher that has requested and processed nothing; the chunks asked for so far (greq) are counted from here
+//@ func New
+//@   requires greq == 0 && callback.Suspend != nil && callback.Done != nil && callback.RequestChunks != nil && callback.IsProcessed != nil
+//@   requires 0 <= cfg.ParallelChunksDownload && cfg.ParallelChunksDownload <= 2147483647
+//@   ensures  flow(result) && fresh(result) && len(result.processingChunks) == 0 && !result.done
+//@
+//@ // loop: the goroutine that owns the counters. Whatever the order of notifications, ticks and the quit signal, the
+//@ // chunks really asked for (greq) never exceed the chunks processed plus the parallelism limit, and a dropped chunk
+//@ // (buffer full) asks for nothing. The flag done is set by Terminate() from other goroutines (interference).
+//@ // The two bounds below are resource assumptions (fewer than 2^60 chunks processed, request window below 2^32).
+//@ func (*BasePeerLeecher).loop
+//@   requires flow(d) && d.cfg.RecheckInterval > 0 && len(d.processingChunks) <= 2 * d.cfg.ParallelChunksDownload
+//@   interference d.done
+//@   modifies d.done, d.processingChunks, d.totalProcessed, d.totalRequested, nreq, lastChunks, greq, allelems(receivedChunk)
+//@   ensures  flow(d)
+//@   loop 1 modifies d.done, d.processingChunks, d.totalProcessed, d.totalRequested, nreq, lastChunks, greq, allelems(receivedChunk)
+//@   loop 1 invariant flow(d) && len(d.processingChunks) <= 2 * d.cfg.ParallelChunksDownload
+//@   loop 1 assumes d.totalProcessed + 2 * d.cfg.ParallelChunksDownload + 1 <= Big && d.totalProcessed + 3 * d.cfg.ParallelChunksDownload + 1 - d.totalRequested <= 4294967295
+//@
+//@ func (*BasePeerLeecher).NotifyChunkReceived
+//@   requires d != nil
+//@   ensures  result == nil || result == errTerminated
